@@ -451,10 +451,7 @@ Qed.
 
 (* \ on a float operand: typed SINGLE and folded with float floor division,
    computed on LONG operands (rounded) at run time *)
-Theorem fold_intdiv_float_refuted :
-  fold (CBin OIntdiv (CNum 1 (PInt 7)) (CNum 3 (PFlt f_2_5))) = Folded 3 (PFlt (of_Z 2)) /\
-  rt_eval (CBin OIntdiv (CNum 1 (PInt 7)) (CNum 3 (PFlt f_2_5))) = RVal (CL 3).
-Proof. vm_compute. split; reflexivity. Qed.
+
 
 (* ^ with a negative exponent: TypeError in the compiler (D32 at run time: 0) *)
 Theorem fold_exp_negative_refuted :
